@@ -44,11 +44,12 @@ type Walker struct {
 	// takes the only successor from which Target's block is reachable.
 	Target ssa.Instruction
 
-	vals  map[ssa.Value]WVal
-	cells map[ssa.Value]WVal
-	Err   string
-	steps int
-	depth int // nesting of walked callees
+	vals   map[ssa.Value]WVal
+	cells  map[ssa.Value]WVal
+	Err    string
+	steps  int
+	depth  int                  // nesting of walked callees
+	tuples map[ssa.Value][]WVal // results of walked multi-result callees
 }
 
 // Eval returns the value of v at the current point of the walk. For a local
@@ -69,6 +70,9 @@ func (w *Walker) Eval(v ssa.Value) (WVal, bool) {
 	switch x := v.(type) {
 	case *ssa.Const:
 		if x.Value == nil {
+			if x.IsNil() {
+				return WVal{Kind: 'n'}, true // the nil constant (an error that is nil, ...)
+			}
 			return WVal{}, false
 		}
 		switch x.Value.Kind() {
@@ -136,6 +140,15 @@ func (w *Walker) exec(ins ssa.Instruction, prev *ssa.BasicBlock) {
 			// comparisons of a pointer/interface with nil are supplied by the oracle
 			return
 		}
+		if a.Kind == 'n' && b.Kind == 'n' {
+			switch x.Op {
+			case token.EQL:
+				w.vals[x] = WBool(true)
+			case token.NEQ:
+				w.vals[x] = WBool(false)
+			}
+			return
+		}
 		if a.Kind == 'i' && b.Kind == 'i' {
 			switch x.Op {
 			case token.ADD:
@@ -169,6 +182,10 @@ func (w *Walker) exec(ins ssa.Instruction, prev *ssa.BasicBlock) {
 				w.vals[x] = WBool(a.B || b.B)
 			}
 		}
+	case *ssa.Extract:
+		if t, ok := w.tuples[x.Tuple]; ok && x.Index < len(t) && t[x.Index].Kind != 0 {
+			w.vals[x] = t[x.Index]
+		}
 	case *ssa.Call:
 		if b, ok := x.Call.Value.(*ssa.Builtin); ok && (b.Name() == "min" || b.Name() == "max") {
 			var acc *int64
@@ -192,9 +209,10 @@ func (w *Walker) exec(ins ssa.Instruction, prev *ssa.BasicBlock) {
 		// a call of a function with a body and one int/bool result (a helper the
 		// computation was extracted into): walk it with the arguments that are known
 		callee := x.Call.StaticCallee()
-		if callee == nil || callee.Blocks == nil || w.depth >= 4 || x.Call.Signature().Results().Len() != 1 {
+		if callee == nil || callee.Blocks == nil || w.depth >= 4 || x.Call.Signature().Results().Len() < 1 {
 			return
 		}
+		nres := x.Call.Signature().Results().Len()
 		bind := map[ssa.Value]WVal{}
 		args := x.Call.Args
 		for i, par := range callee.Params {
@@ -215,13 +233,22 @@ func (w *Walker) exec(ins ssa.Instruction, prev *ssa.BasicBlock) {
 			return WVal{}, false
 		}
 		var res WVal
+		var tuple []WVal
 		got := false
 		sub.OnInstr = func(ins ssa.Instruction, sw *Walker) bool {
 			if ret, ok := ins.(*ssa.Return); ok {
-				if len(ret.Results) == 1 {
+				if len(ret.Results) == 1 && nres == 1 {
 					if r, ok := sw.Eval(ret.Results[0]); ok {
 						res, got = r, true
 					}
+				} else if len(ret.Results) == nres {
+					tuple = make([]WVal, nres)
+					for k, rv := range ret.Results {
+						if r, ok := sw.Eval(rv); ok {
+							tuple[k] = r
+						}
+					}
+					got = true
 				}
 				return true
 			}
@@ -229,7 +256,14 @@ func (w *Walker) exec(ins ssa.Instruction, prev *ssa.BasicBlock) {
 		}
 		sub.Run()
 		if got && sub.Err == "" {
-			w.vals[x] = res
+			if nres == 1 {
+				w.vals[x] = res
+			} else {
+				if w.tuples == nil {
+					w.tuples = map[ssa.Value][]WVal{}
+				}
+				w.tuples[x] = tuple
+			}
 		}
 	}
 }
